@@ -13,6 +13,7 @@ import (
 	"github.com/avos-io/goat/gen/goatorepo"
 	"google.golang.org/grpc"
 	"google.golang.org/grpc/codes"
+	"google.golang.org/grpc/metadata"
 	"google.golang.org/grpc/status"
 	"google.golang.org/protobuf/proto"
 	"google.golang.org/protobuf/types/known/anypb"
@@ -369,9 +370,20 @@ func c03Matrix(tier string, seed int64, idx int, c c03Case, res *core.Result) {
 		var observed error
 		done := make(chan struct{})
 		hrec := &SideRec{}
+		// every third RPC also carries binary response metadata, set the way an application may
+		// (an MD literal with a mixed-case key, bytes that are not themselves base64): whatever
+		// happens to the metadata, the status must come through
+		var binMD metadata.MD
+		if i%3 == 1 {
+			binMD = metadata.MD{"Checksum-Bin": {"\xfb\xff\x01 raw"}}
+			res.Stat("rpcs_with_binary_response_metadata", 1)
+		}
 		switch rp.Kind {
 		case "unary":
 			b.Impl.SetUnary(tag, func(ctx context.Context, tag string, req []byte) ([]byte, error) {
+				if binMD != nil {
+					grpc.SetTrailer(ctx, binMD)
+				}
 				if herr != nil {
 					if rp.WithBody {
 						return []byte("body-with-error"), herr
@@ -430,6 +442,13 @@ func c03Matrix(tier string, seed int64, idx int, c c03Case, res *core.Result) {
 				}
 			}
 			b.Impl.SetStream(tag, func(tag, kind string, ss grpc.ServerStream) error {
+				if binMD != nil {
+					if i%2 == 0 {
+						ss.SetHeader(binMD)
+					} else {
+						ss.SetTrailer(binMD)
+					}
+				}
 				return runHandlerProg(ss, tag, hops, hrec, gates)
 			})
 			cr := StartClient(context.Background(), func() {}, nil, cc, rp.Kind, tag, []byte("r"), cops, nil, gates, nil, nil)
@@ -681,11 +700,11 @@ func init() {
 	core.Register(&core.Prop{
 		ID:    "C03",
 		Level: "exploration",
-		Rule:  "cases: (matrix) 24 RPCs per case cycling 4 RPC kinds x 11 error kinds (status x3, wrapped status, plain, context canceled/deadline, error whose GRPCStatus says OK, nil, io.EOF, wrapped io.EOF) x all 16 non-OK codes x message class {plain, empty, Unicode, 4 KiB} x 0..3 Any details x position {before any message, between, after the last}, unary also with a body alongside the error; (race) handler fails while the caller still sends, the trailer held in the server writer by a rendezvous hook while 1..4 late bodies arrive; (loss-before-trailer) the handler sends a message and fails but the connection is lost - with io.EOF, a wrapped io.EOF, a custom error or context.Canceled - before the trailer arrives: the caller must not observe success; (loss-after-trailer) the handler sends one message and fails; the caller starts receiving only after the complete response was read and the transport then failed: it must still see the messages and the status; (foreign) 13 reply shapes from a scripted peer (explicit OK + body, status without metadata, resets - typed RST_STREAM, untyped, lower-case - with/without trailer / after a body). Half of the matrix cases run behind pass-through server interceptors (plain / chained pairs). Every case is non-trivial; distinct = distinct descriptors.",
+		Rule:  "cases: (matrix) 24 RPCs per case cycling 4 RPC kinds x 11 error kinds (status x3, wrapped status, plain, context canceled/deadline, error whose GRPCStatus says OK, nil, io.EOF, wrapped io.EOF) x all 16 non-OK codes x message class {plain, empty, Unicode, 4 KiB} x 0..3 Any details x position {before any message, between, after the last}, unary also with a body alongside the error; (race) handler fails while the caller still sends, the trailer held in the server writer by a rendezvous hook while 1..4 late bodies arrive; (loss-before-trailer) the handler sends a message and fails but the connection is lost - with io.EOF, a wrapped io.EOF, a custom error or context.Canceled - before the trailer arrives: the caller must not observe success; (loss-after-trailer) the handler sends one message and fails; the caller starts receiving only after the complete response was read and the transport then failed: it must still see the messages and the status; (foreign) 13 reply shapes from a scripted peer (explicit OK + body, status without metadata, resets - typed RST_STREAM, untyped, lower-case - with/without trailer / after a body). Every third matrix RPC also sets binary response metadata through an MD literal with a mixed-case -bin key. Half of the matrix cases run behind pass-through server interceptors (plain / chained pairs). Every case is non-trivial; distinct = distinct descriptors.",
 		Plan:  func(tier string, seed int64) int { return tierN(tier, 144, 4800) },
 		Run:   c03Run,
 		RequiredStats: func(string) []string {
-			return []string{"trailer_held_in_writer", "foreign_cases", "rpcs", "loss_after_trailer_cases", "loss_before_trailer_cases", "cases_with_server_interceptors"}
+			return []string{"trailer_held_in_writer", "foreign_cases", "rpcs", "loss_after_trailer_cases", "loss_before_trailer_cases", "cases_with_server_interceptors", "rpcs_with_binary_response_metadata"}
 		},
 	})
 }
